@@ -15,7 +15,8 @@ META = {
         "the GF(2)-linearity argument",
         "read/write paths that call the set/verify routines: encoded are ext2fs_extent_get (extget_p), the inode scan "
         "ext2fs_get_next_inode_full (iscan_p), write_backup_super and the primary-superblock tail of ext2fs_flush2 "
-        "(sbwrite_t); NOT encoded: ext2fs_read_inode2/ext2fs_write_inode2, dirblock.c, ext_attr.c, rw_bitmaps.c, mmp.c, "
+        "(sbwrite_t, incl. the incremental orig_super route as concrete scenarios), ext2fs_read_inode2 with its inode cache "
+        "(readinode_p); NOT encoded: ext2fs_write_inode2, dirblock.c, ext_attr.c, rw_bitmaps.c, mmp.c, "
         "extent.c:update_path, group descriptor writes of ext2fs_flush2",
         "inode sizes other than 128/256, descriptor sizes other than 32/64/128, block sizes other than the small ones "
         "listed per harness (the code is parametric in them)",
@@ -145,8 +146,9 @@ HARNESSES = [
          funcs=["write_backup_super", "ext2fs_superblock_csum_set"],
          configs=[{"MODE": 1, "CSUM": 1}, {"MODE": 1, "CSUM": 0}, {"MODE": 2, "CSUM": 1}, {"MODE": 2, "CSUM": 0},
                   {"MODE": 3},
-                  {"MODE": 3, "LO_O": 1, "LO_A": 1, "LO_B": 2, "UP_O": 3, "UP_A": 3, "UP_B": 3},
-                  {"MODE": 3, "LO_O": 1, "LO_A": 2, "LO_B": 3, "UP_O": 1, "UP_A": 1, "UP_B": 2, "_tier": "thorough"}],
+                  {"MODE": 3, "LO_O": 1, "LO_A": 1, "LO_B": 2, "UP_O": 3, "UP_A": 3, "UP_B": 3, "CS_O": 5, "CS_A": 6, "CS_B": 7},
+                  {"MODE": 3, "LO_O": 1, "LO_A": 2, "LO_B": 3, "UP_O": 1, "UP_A": 2, "UP_B": 1, "CS_O": 9, "CS_A": 9, "CS_B": 9,
+                   "_tier": "thorough"}],
          unwind=4, unwindset=["main.%d:1030" % i for i in range(6)] +
                    ["ext2fs_crc32c_le.0:1030", "io_channel_write_blk64.0:1030", "io_channel_write_byte.0:1030",
                     "vf_dev_equals.0:1030", "write_primary_superblock.0:516", "write_primary_superblock.1:516", "write_primary_superblock.2:516", "write_primary_superblock.3:516"],
@@ -154,8 +156,8 @@ HARNESSES = [
          bound="one 1024-byte superblock copy per query, all bytes symbolic except the feature words; group (2^32) and "
                "block number (2^64) symbolic; backup path (write_backup_super) and primary path (tail of ext2fs_flush2 "
                "+ write_primary_superblock fallback), metadata_csum on/off; incremental route (orig_super + write_byte): two "
-               "consecutive updates A, B over a byte-array device, s_checksum of all three images symbolic, one lower-half "
-               "and one upper-half word concrete per query"),
+               "consecutive updates A, B over a byte-array device with a concrete difference pattern per query in one lower-half "
+               "word, one upper-half word and s_checksum (concrete scenario, not for-all)"),
     dict(name="iscan_p", src="iscan_p.c", extra_src=["lib/ext2fs/blknum.c", "lib/ext2fs/extent.c"],
          funcs=["ext2fs_get_next_inode_full", "get_next_blockgroup", "get_next_blocks", "check_inode_block_sanity"],
          # check_inode_block_sanity's loop (a `continue` inside a while) is not bounded concretely by symex: its bound
@@ -172,6 +174,16 @@ HARNESSES = [
          bound="2 groups x 3 inode-table blocks x 2 inodes per block (inode size 512, block size 1024), scan buffer of "
                "1, 2 or 3 blocks, bg_itable_unused 0 or 1; complete scan (13 calls); per-inode checksum verdict and "
                "insane bit symbolic"),
+    dict(name="readinode_p", src="readinode_p.c", extra_src=["lib/ext2fs/blknum.c"],
+         funcs=["ext2fs_read_inode2"],
+         configs=[{"F1": 1, "F2": 0}, {"F1": 0, "F2": 0},
+                  {"F1": 1, "F2": 1, "_tier": "thorough"}, {"F1": 0, "F2": 1, "_tier": "thorough"},
+                  {"F1": 1, "F2": 0, "PRE": 1, "_tier": "thorough"}, {"F1": 0, "F2": 0, "PRE": 1, "_tier": "thorough"},
+                  {"F1": 1, "F2": 0, "IGN": 1, "_tier": "thorough"}],
+         unwind=6, backends=["default", "kissat"],
+         bound="one group of 16 inodes of 256 bytes, block size 1024; two consecutive reads of inode 3 with concrete "
+               "flags (0 / READ_INODE_NOCSUM) per query, cache empty or full of other inodes, IGNORE_CSUM_ERRORS on/off; "
+               "checksum verdict and inode payload symbolic"),
     dict(name="crc16_d", src="crc16_d.c", funcs=["ext2fs_crc16"],
          configs=[{"MODE": 2, "LEN": n} for n in (2, 0, 1, 3)] + [{"MODE": 1}],
          unwindset=["ref_crc16_byte.0:9", "main.0:5", "ext2fs_crc16.0:5"], backends=["default", "kissat", "z3"],
